@@ -66,7 +66,8 @@ type c08Result struct {
 	// not-applied update of -_-Datatypes that directly follows an applied insert of the same request
 	s15Pattern bool
 	patched    bool
-	writeSeqs  []int // command numbers of the writes (fault-free runs)
+	writeSeqs  []int    // command numbers of the writes (fault-free runs)
+	context    []string // the commands around the fault (for the journal)
 }
 
 // c08Run executes a scenario with at most one storage fault, then recovers and checks.
@@ -103,13 +104,26 @@ func c08Run(sc c07Scenario, f *c08Fault, idseed uint64) (res c08Result) {
 		}
 		log := w.env.Mongo.CommandLog()
 		for i, r := range log {
+			if r.Seq >= f.K-4 && r.Seq <= f.K+f.Len+2 {
+				mark := " "
+				if f.hits(r.Seq) {
+					mark = "*"
+				}
+				res.context = append(res.context, fmt.Sprintf("%s#%d %s %s -> %s", mark, r.Seq, r.Verb, r.NS[strings.Index(r.NS, ".")+1:], r.Outcome))
+			}
 			if !f.hits(r.Seq) {
 				continue
 			}
+			// does this command follow an applied insert into -_-Operations whose datatype-document update has not
+			// happened yet? (background work of earlier requests may sit between the two in the global command order)
 			after := false
-			for j := i - 1; j >= 0 && j >= i-2; j-- {
+			for j := i - 1; j >= 0 && j >= i-12; j-- {
+				if log[j].Verb == "update" && strings.HasSuffix(log[j].NS, ".-_-Datatypes") {
+					break
+				}
 				if log[j].Verb == "insert" && strings.HasSuffix(log[j].NS, ".-_-Operations") && !f.hits(log[j].Seq) {
 					after = true
+					break
 				}
 			}
 			if r.Verb == "insert" || r.Verb == "update" || r.Verb == "findAndModify" || r.Verb == "delete" {
@@ -459,7 +473,9 @@ func TestC08Random(t *testing.T) {
 			}
 		}
 		modes[0] = "subscribe-or-create"
-		if allSub && rapid.Bool().Draw(rt, "m0create") {
+		// REST patches create an absent document: with them in the scenario the first client must not insist on creating
+		withPatch := kind == sim.Document && rapid.Bool().Draw(rt, "with-rest-patches")
+		if allSub && !withPatch && rapid.Bool().Draw(rt, "m0create") {
 			// a plain create may only be used when nobody else can create the key in its place
 			modes[0] = "create"
 		}
@@ -476,7 +492,7 @@ func TestC08Random(t *testing.T) {
 			switch w := rapid.IntRange(0, 9).Draw(rt, fmt.Sprintf("w%d", i)); {
 			case w < 4:
 				sc.Steps = append(sc.Steps, c07Step{K: "x", C: ci})
-			case w == 9 && kind == sim.Document:
+			case w == 9 && withPatch:
 				sc.Steps = append(sc.Steps, c07Step{K: "patch", Mode: fmt.Sprintf(`{"p%d":%d,"k1":"patched"}`, i%3, i)})
 			default:
 				sc.Steps = append(sc.Steps, c07Step{K: "op", C: ci, Call: c08Call(rt, kind, i)})
@@ -515,7 +531,8 @@ func TestC08Random(t *testing.T) {
 				col.Case(true, string(b), []string{"known=" + id, "kind=" + string(kind)}, nil)
 				return
 			}
-			c.failf("fault %s at command %d (+%d) (%s %s): %v", mode, f.K, f.Len, r.faultedOn, r.faultedNS, r.err)
+			c.j.Header = map[string]interface{}{"scenario": sc, "fault": f, "id_seed": idseed, "commands_around_the_fault": r.context}
+			c.failf("fault %s at command %d (+%d) (%s %s): %v\ncommands around the fault: %v", mode, f.K, f.Len, r.faultedOn, r.faultedNS, r.err, r.context)
 		}
 		labels := []string{"kind=" + string(kind), "mode=" + mode}
 		if f.Len > 1 {
